@@ -98,6 +98,7 @@ def check(run, replay=None):
     from . import libcommon
     libcommon.regen_imp(run)
     run.prove("Props/C14T", THEOREMS_T, strengthening=True)
+    run.prove("Props/C07R", ["c07_translated_second_handler_of_a_reply_id"], strengthening=True)   # merging reply handlers in either order
     g = gen.ProgGen(rng)
     k = 4 if thorough else 2
     bases = [g.gen_contract() if i % 3 else g.gen_iface() for i in range(500 if thorough else 70)]
